@@ -34,7 +34,6 @@ SHADOW = [
     "src/shared/replication/client_ticks.rs",
     "src/server/client_visibility.rs",
     "src/shared/server_entity_map.rs",
-    "src/server/client_entity_map.rs",
 ]
 
 
